@@ -9,6 +9,7 @@ Phase B: a fresh exec of the same program under the real profiler and the virtua
 recorded.  Both phases run in this process (same hash salt).
 """
 import ctypes
+import gc
 import faulthandler
 import os
 import sys
@@ -202,6 +203,11 @@ class P:
             self.lib.vclock_advance(d)
 
     def snap(self):
+        # reference cycles (e.g. a wrapper frame <-> the exception it forwards) make the moment abandoned
+        # generators are finalised depend on the cyclic collector; automatic collection is off in this driver
+        # and cycles are collected HERE, at the same point of both phases, so the two executions see the
+        # finalisers' events at the same place
+        gc.collect()
         st = self.prof.get_stats()
         if self.phase == 'A':
             self.rec.ops.append(('S',))
@@ -259,6 +265,7 @@ def run_program(prog, root, lib, k):
             sys.settrace(rec.gtrace)
         try:
             ns['main'](h)
+            gc.collect()
         except BaseException as e:   # noqa
             err = '%s: %s' % (type(e).__name__, e)
         finally:
@@ -294,6 +301,7 @@ def run_program(prog, root, lib, k):
 
 def main():
     payload = read_payload()
+    gc.disable()
     lib = ctypes.CDLL(None)
     try:
         lib.vclock_advance.argtypes = [ctypes.c_int64]
